@@ -917,7 +917,7 @@ ssize_t __wrap_getrandom(void *buf, size_t len, unsigned flags)
     else { n = 32; gen_data(tmp, 32, 0xE000 + (uint64_t)script_pos, 'r'); }
     script_pos++;
     if (n != 32) n = 0;
-    if (n) memcpy(buf, tmp, len < 32 ? len : 32);
+    if (n) { memcpy(buf, tmp, len < 32 ? len : 32); SECRET(buf, len < 32 ? len : 32); }
     if (ncalls < MAXSCRIPT) {
         calls[ncalls].n = n; memcpy(calls[ncalls].bytes, tmp, 32); calls[ncalls].asked = len;
         calls[ncalls].udok = 1; calls[ncalls].os = 1; calls[ncalls].at = written_so_far();
@@ -1064,6 +1064,96 @@ static void op_pfree(void)
     emit_obj("PFree", o); jint("size", (long)o->len); jint("nonzero", (long)nonzero(o->p, o->len)); jend();
 }
 
+/* deadstate kind=hash|hmac|hkdf|pbkdf2 m= key= salt= info= len= :
+ * The all-in-one functions keep their state object on their own stack and free it before they return; the free must leave
+ * nothing of it behind (the compiler may not drop the wipe of an object that is about to die).  The image the object had
+ * just before its free is reproduced with the incremental API on a heap object; then the dead stack is poisoned, the
+ * all-in-one function is called, and the dead stack is copied out (inline: no call may overwrite it first) and searched
+ * for stretches of the image (see below). */
+#define DS_SPAN 49152
+static unsigned char *volatile ds_lo;
+static unsigned char ds_snap[DS_SPAN], ds_img[256];
+__attribute__((noinline)) static void ds_poison(void)
+{
+    volatile unsigned char a[DS_SPAN];
+    for (size_t i = 0; i < sizeof(a); i++) a[i] = 0x5A;
+    ds_lo = (unsigned char *)a;
+    __asm__ volatile("" ::: "memory");
+}
+static int ds_nontrivial(const unsigned char *w, size_t n)
+{
+    unsigned char seen[256] = {0}; int d = 0;
+    for (size_t i = 0; i < n; i++) if (!seen[w[i]]) { seen[w[i]] = 1; d++; }
+    return d >= 8;
+}
+static void op_deadstate(void)
+{
+    const char *kind = kv("kind", "hash");
+    gbuf m, key, salt, info;
+    size_t len = (size_t)kvi("len", 32), imglen = 0;
+    unsigned char out1[8160], out2[8160];
+    gvalue(&m, "in", kv("m", "-"), 1); gvalue(&key, "key", kv("key", "-"), 2);
+    gvalue(&salt, "salt", kv("salt", "-"), 3); gvalue(&info, "info", kv("info", "-"), 4);
+    if (len > sizeof(out1)) die("deadstate: len too large");
+    void (*volatile f_hash)(unsigned char *, const unsigned char *, size_t) = tinyjambu_hash;
+    /* the image of the state object just before its free */
+    if (!strcmp(kind, "hash")) {
+        tinyjambu_hash_state_t *st = malloc(sizeof(*st));
+        tinyjambu_hash_init(st); tinyjambu_hash_update(st, gptr(&m), m.len); tinyjambu_hash_finalize(st, out1);
+        imglen = sizeof(*st); memcpy(ds_img, st, imglen); tinyjambu_hash_free(st); free(st);
+    } else if (!strcmp(kind, "hmac")) {
+        tinyjambu_hmac_state_t *st = malloc(sizeof(*st));
+        tinyjambu_hmac_init(st, gptr(&key), key.len); tinyjambu_hmac_update(st, gptr(&m), m.len);
+        tinyjambu_hmac_finalize(st, gptr(&key), key.len, out1);
+        imglen = sizeof(*st); memcpy(ds_img, st, imglen); tinyjambu_hmac_free(st); free(st);
+    } else if (!strcmp(kind, "hkdf")) {
+        tinyjambu_hkdf_state_t *st = malloc(sizeof(*st));
+        tinyjambu_hkdf_extract(st, gptr(&key), key.len, gptr(&salt), salt.len);
+        tinyjambu_hkdf_expand(st, gptr(&info), info.len, out1, len);
+        imglen = sizeof(*st); memcpy(ds_img, st, imglen); tinyjambu_hkdf_free(st); free(st);
+    } else if (!strcmp(kind, "pbkdf2")) {
+        /* count = 1, one block: the last HMAC computation of F is HMAC(password, salt || INT(1)) */
+        tinyjambu_hmac_state_t *st = malloc(sizeof(*st));
+        unsigned char b[4] = {0, 0, 0, 1};
+        tinyjambu_hmac_init(st, gptr(&key), key.len); tinyjambu_hmac_update(st, gptr(&salt), salt.len);
+        tinyjambu_hmac_update(st, b, 4); tinyjambu_hmac_finalize(st, gptr(&key), key.len, out1);
+        imglen = sizeof(*st); memcpy(ds_img, st, imglen); tinyjambu_hmac_free(st); free(st);
+        if (len > 32) len = 32;
+    } else die("deadstate: unknown kind");
+    if (imglen > sizeof(ds_img)) die("deadstate: image too large");
+    memset(out2, 0, sizeof(out2));
+    ds_poison();
+    if (!strcmp(kind, "hash")) f_hash(out2, gptr(&m), m.len);
+    else if (!strcmp(kind, "hmac")) tinyjambu_hmac(out2, gptr(&key), key.len, gptr(&m), m.len);
+    else if (!strcmp(kind, "hkdf")) tinyjambu_hkdf(out2, len, gptr(&key), key.len, gptr(&salt), salt.len, gptr(&info), info.len);
+    else tinyjambu_pbkdf2(out2, len, gptr(&key), key.len, gptr(&salt), salt.len, 1);
+    {   /* copy the dead stack out before any other call can touch it */
+        const volatile unsigned char *src = ds_lo;
+        for (size_t i = 0; i < DS_SPAN; i++) ds_snap[i] = src[i];
+    }
+    size_t cmp = !strcmp(kind, "hkdf") || !strcmp(kind, "pbkdf2") ? len : 32;
+    int same = !memcmp(out1, out2, cmp);          /* the image belongs to the same computation */
+    /* the longest non-trivial stretch of the image found anywhere in the dead stack.  Values the algorithms handle as a
+     * unit (a digest, a block: at most 32 bytes) may legitimately survive as scratch copies next to each other; a stretch
+     * longer than that is (part of) the object itself. */
+    long maxrun = 0, dirty = 0, nontrivial = 0;
+    for (size_t i = 0; i < DS_SPAN; i++) if (ds_snap[i] != 0x5A) dirty++;
+    for (size_t o = 0; o + 33 <= imglen; o++) if (ds_nontrivial(ds_img + o, 33)) nontrivial++;
+    for (size_t p = 0; p < DS_SPAN; p++) {
+        if (ds_snap[p] == 0x5A) continue;
+        for (size_t o = 0; o < imglen; o++) {
+            if (ds_snap[p] != ds_img[o]) continue;
+            if (p > 0 && o > 0 && ds_snap[p - 1] == ds_img[o - 1]) continue;      /* not the start of a stretch */
+            size_t n = 0;
+            while (p + n < DS_SPAN && o + n < imglen && ds_snap[p + n] == ds_img[o + n]) n++;
+            if ((long)n > maxrun && n >= 16 && ds_nontrivial(ds_img + o, n)) maxrun = (long)n;
+        }
+    }
+    jbegin("DeadState"); jstr("kind", kind); jint("imglen", (long)imglen); jint("windows", nontrivial); jint("maxrun", maxrun);
+    jint("same", same); jint("dirty", dirty > 0); jend();
+    gfree(&m); gfree(&key); gfree(&salt); gfree(&info);
+}
+
 /* clean size= off= : tinyjambu_clean on the middle of a canary-surrounded region */
 static void op_clean(void)
 {
@@ -1166,6 +1256,7 @@ int main(void)
         else if (!strcmp(cur_op, "plimit")) op_plimit();
         else if (!strcmp(cur_op, "pfree")) op_pfree();
         else if (!strcmp(cur_op, "clean")) op_clean();
+        else if (!strcmp(cur_op, "deadstate")) op_deadstate();
 #ifdef TJD_WITH_TRNG
         else if (!strcmp(cur_op, "trng")) op_trng();
 #endif
